@@ -39,6 +39,9 @@ def gen(rng, tier):
         yield c
 
 
+fix_candidate = TG.fix_typed_candidate
+
+
 def nontrivial(case, impl):
     return bool(case.get("_nt"))
 
